@@ -128,6 +128,7 @@ func (*G2) Cofactor() cardinal.Cardinal {
 
 // Order returns the group or field order.
 func (*G2) Order() cardinal.Cardinal {
+	_ = NewScalarField() // scalarFieldOrder is initialised lazily
 	return cardinal.NewFromNumeric(scalarFieldOrder.Nat())
 }
 
